@@ -4,7 +4,7 @@ set -e
 cd "$(dirname "$0")"
 export GOFLAGS=-mod=mod GOPROXY=off GOSUMDB=off GOTOOLCHAIN=local CGO_ENABLED=0
 mkdir -p .work evidence replays
-(cd lean && lake build Verif vdrv)
+(cd lean && lake build Verif Verif.All vdrv)
 cp /repo/go.sum harness/go.sum
 (cd harness && go build -tags verif -o ../.work/vh .)
 echo setup-ok
